@@ -58,9 +58,9 @@ func Load(harnessDir string, pkgPaths []string) (*Program, error) {
 			packages.NeedDeps | packages.NeedTypes | packages.NeedSyntax | packages.NeedTypesInfo |
 			packages.NeedTypesSizes | packages.NeedModule,
 		Dir:        RepoDir,
-		BuildFlags: []string{"-tags=verif", "-mod=mod"},
+		BuildFlags: []string{"-tags=verif", "-mod=readonly"},
 		Overlay:    ov,
-		Env:        append(os.Environ(), "GOFLAGS=-mod=mod", "GOPROXY=off", "GOSUMDB=off", "GOTOOLCHAIN=local", "CGO_ENABLED=0"),
+		Env:        append(os.Environ(), "GOFLAGS=-mod=readonly", "GOPROXY=off", "GOSUMDB=off", "GOTOOLCHAIN=local", "CGO_ENABLED=0"),
 	}
 	pkgs, err := packages.Load(cfg, patterns...)
 	if err != nil {
